@@ -101,6 +101,9 @@ def _fspath(p):
     raise Raised("TypeError", "expected str, bytes or os.PathLike object")
 
 
+from collections.abc import Mapping as _abc_Mapping  # noqa: E402
+import types as _types  # noqa: E402
+
 PURE_BUILTINS = {
     "int": int, "str": str, "len": len, "set": set, "list": list, "dict": dict, "sorted": sorted, "enumerate": enumerate, "zip": zip,
     "range": range, "min": min, "max": max, "any": any, "all": all, "tuple": tuple, "frozenset": frozenset, "bool": bool, "float": float,
@@ -138,7 +141,11 @@ SAFE_METHODS = {
     bytes: {"decode"},
     re.Pattern: {"fullmatch", "match", "search", "sub", "findall"},
     ChainMap: {"get", "items", "keys", "values", "pop", "update", "new_child"},
+    _types.MappingProxyType: {"get", "items", "keys", "values"},
 }
+
+
+HOST_ERRORS = (TypeError, AttributeError, KeyError, IndexError, ValueError, ZeroDivisionError)
 
 
 class PureInterp:
@@ -208,6 +215,12 @@ class PureInterp:
             self.stmt(st, env, module, depth)
 
     def stmt(self, st, env, module, depth):
+        try:
+            return self._stmt(st, env, module, depth)
+        except HOST_ERRORS as exc:
+            raise Raised(type(exc).__name__, f"{exc} at line {getattr(st, 'lineno', '?')}")
+
+    def _stmt(self, st, env, module, depth):
         if isinstance(st, ast.Expr):
             if isinstance(st.value, ast.Constant):
                 return
@@ -388,7 +401,11 @@ class PureInterp:
         m = getattr(self, "e_" + type(n).__name__, None)
         if m is None:
             raise Unsupported(f"expression {type(n).__name__}")
-        return m(n, env, module, depth)
+        try:
+            return m(n, env, module, depth)
+        except HOST_ERRORS as exc:
+            # the interpreted operation fails on these operands: that is what the code would raise
+            raise Raised(type(exc).__name__, f"{exc} in `{ast.unparse(n)[:60]}`")
 
     def e_Constant(self, n, env, module, depth):
         return n.value
@@ -688,7 +705,7 @@ class PureInterp:
             nm = x.name if isinstance(x, FuncRef) else getattr(x, "name", str(x))
             if nm.endswith("str") and isinstance(v, str):
                 return True
-            if nm.endswith("Mapping") and isinstance(v, dict):
+            if nm.endswith("Mapping") and isinstance(v, _abc_Mapping):
                 return True
             if nm.endswith("dict") and isinstance(v, dict):
                 return True
